@@ -36,10 +36,11 @@ type batchCfg struct {
 	Gen      bool    // the worker has a job id generator
 	NoID     bool    // every third batch item is submitted without an id
 	LateRead bool    // the stream is only read after Wait returned (its buffer must hold every outcome)
+	Seq      bool    // a batch is submitted only after the previous one has finished (Wait returned)
 }
 
 func (c batchCfg) String() string {
-	return fmt.Sprintf("batch wk=%v qk=%v conc=%d sizes=%v gated=%v reject=%d purge=%d singles=%d noReader=%v out=%v", c.WK, c.QK, c.Conc, c.Sizes, c.Gated, c.Reject, c.Purge, c.Singles, c.NoReader, c.Out)
+	return fmt.Sprintf("batch wk=%v qk=%v conc=%d sizes=%v gated=%v reject=%d purge=%d singles=%d noReader=%v seq=%v out=%v", c.WK, c.QK, c.Conc, c.Sizes, c.Gated, c.Reject, c.Purge, c.Singles, c.NoReader, c.Seq, c.Out)
 }
 
 func drawBatch(r *Rng, big bool) batchCfg {
@@ -70,6 +71,9 @@ func drawBatch(r *Rng, big bool) batchCfg {
 	c.NoID = r.Chance(40)
 	if r.Chance(12) && !c.Gated {
 		forceLate(&c, r)
+	}
+	if !c.Gated && c.Purge == 0 && len(c.Sizes) >= 2 && r.Chance(35) {
+		c.Seq = true
 	}
 	return c
 }
@@ -162,6 +166,10 @@ func epBatch(c *RunCtx, cfg batchCfg) *Result {
 				if cfg.Gated {
 					r.Gate = gate
 				}
+				if cfg.Seq && bi > 0 {
+					// takes (virtual) time: still queued or executing when AddAll returns
+					r.Work = 2 * time.Microsecond
+				}
 				r.Prio = i % 3
 				items = append(items, varmq.Item[int]{ID: r.ID, Data: idx, Priority: r.Prio})
 				r.Submitted = true
@@ -173,8 +181,25 @@ func epBatch(c *RunCtx, cfg batchCfg) *Result {
 			}
 			closedQ := (cfg.Reject == 1) || (cfg.Reject == 2 && bi >= 1)
 			br.rejected = closedQ
+			if cfg.Seq && bi > 0 {
+				prev := runs[bi-1]
+				if !k.Await(prev.b.Wait) {
+					hangFail(e, "C08", fmt.Sprintf("batch%d.Wait(seq)", bi-1), bid)
+					return
+				}
+			}
 			e.Ev(fmt.Sprintf("addall%d", bi), sz)
 			br.b = q.AddAll(items)
+			if cfg.Seq && bi > 0 {
+				// the items of the finished batches stay Closed whatever the library does with the next batch
+				for _, pb := range runs {
+					for i := pb.lo; i < pb.hi; i++ {
+						if st := k.Recs[i].RefStatus(); st != "" && st != "Closed" {
+							e.Fail("C16", "backwards", "Closed>"+st+"/batch-item", fmt.Sprintf("%s: item %d of batch %d read Closed when its batch's Wait returned; after the next AddAll it reads %s", cfg, i, bi-1, st))
+						}
+					}
+				}
+			}
 			for i := br.lo; i < br.hi; i++ {
 				k.Recs[i].OK = !closedQ
 			}
@@ -838,6 +863,8 @@ var batchFuncs = []string{"groupJob", "GroupJob", "WgCounter", "Response", "AddA
 
 func runC08(c *RunCtx) {
 	purgeBurstPrograms(c, 16, 64)
+	// batches submitted while their queue is being closed (partly accepted)
+	closeRacePrograms(c, 24, 120, true)
 	for v := 0; v < c.Q(96, 600); v++ {
 		c.Program(fmt.Sprintf("batch/%d", v), func(p *Prog) {
 			cfg := drawBatch(p.Rng, c.Thorough() && v%20 == 0)
